@@ -3,3 +3,5 @@ import Props.C06
 #print axioms Webauthn.Props.C06.bitflip_auth
 #print axioms Webauthn.Props.C06.binding_registration
 #print axioms Webauthn.Props.C06.append_inj_right_len
+#print axioms Webauthn.Props.C06.bitflip_reg_packed_self
+#print axioms Webauthn.Props.C06.authData_of_raw
